@@ -132,8 +132,17 @@ where
             let body = inner;
             inner = Configuration::builder().scope_(move |b| b.do_(body)).build_component();
         }
+        // ... or, where the nested heuristic left an evaluated population, the update alone
+        let plain_update = case.seed & 2 == 2;
         Configuration::builder()
-            .while_(LessThanN::iterations(NEST_RESTARTS), move |b| b.scope_(move |b| b.do_(inner)).evaluate().update_best_individual())
+            .while_(LessThanN::iterations(NEST_RESTARTS), move |b| {
+                let b = b.scope_(move |b| b.do_(inner));
+                if plain_update {
+                    b.if_(Box::new(AllEvaluated), |b| b.update_best_individual())
+                } else {
+                    b.evaluate().update_best_individual()
+                }
+            })
             .build()
     } else {
         config
